@@ -1,6 +1,81 @@
-import BroodModel.Inv
+/-
+  C13 — Identifier index and storage stay in one-to-one correspondence.
+
+  `Inv` (BroodModel/Inv.lean) is the statement: free queue = inactive slots, without duplicates;
+  every active slot points at an existing table row that stores exactly that identifier; every
+  stored identifier's slot points back at its row; `len` = number of rows; one table per component
+  set, with sound lookup tables.  The compiled twin `invB` is evaluated on a structural dump of the
+  real world after every operation of every generated history (correspondence check).
+
+  FULL STATEMENT (`C13_inv`): every history of public operations from an empty world ends in a
+  state satisfying `Inv`.  PROVED SO FAR (`C13_inv_partial`): histories over insert (any shape, any
+  order of components, slot reuse or fresh slot, table found by type / by bytes / created), remove
+  (any row: the swap-remove location fix-up; stale identifiers), reserve.  Operations not yet
+  covered by a Lean proof and held by the correspondence check + `invB` monitoring only: extend,
+  clear, Entry::add/remove, write, shrink_to_fit, clone, clone_from, deserialization.
+-/
+import BroodModel.Lemmas.Ops
+
 namespace Brood
-theorem C13_inv_init (n : Nat) (res : List Val) : Inv (World.init n res) := by
-  constructor <;> simp [World.init, Alloc.empty]
+
+/-- The empty world satisfies the invariant. -/
+theorem C13_inv_init (n : Nat) (res : List Val) : Inv (World.init n res) := inv_init n res
+
+/-- **One step preserves the invariant.** -/
+theorem C13_step {w w' : World} (hi : Inv w) {op : Op} (e : step w op = .ok w') : Inv w' :=
+  step_inv hi e
+
+/-- **After every operation of every history** (over the operations proved so far): `Inv`. -/
+theorem C13_inv_partial (n : Nat) (res : List Val) (ops : List Op) {w : World}
+    (e : run (World.init n res) ops = .ok w) : Inv w :=
+  run_inv (inv_init n res) ops e
+
+/-- Identifiers accepted = identifiers stored: a live identifier resolves to a row holding it… -/
+theorem C13_accepted_is_stored {w : World} (hi : Inv w) {id : Ident} {l : Loc}
+    (hg : w.alloc.get id = some l) : ∃ a, w.findArch l.arch = some a ∧ a.ids[l.row]? = some id :=
+  hi.live_row hg
+
+/-- …and every stored identifier is accepted and resolves to its own row. -/
+theorem C13_stored_is_accepted {w : World} (hi : Inv w) {a : Arch} (ha : a ∈ w.archs) {r : Nat}
+    {id : Ident} (hr : a.ids[r]? = some id) : w.alloc.get id = some ⟨a.handle, r⟩ :=
+  hi.row_live ha hr
+
+/-- Each stored entity is reachable through exactly one identifier / row. -/
+theorem C13_one_row_per_identifier {w : World} (hi : Inv w) {a b : Arch} (ha : a ∈ w.archs)
+    (hb : b ∈ w.archs) {r q : Nat} {id : Ident} (hr : a.ids[r]? = some id) (hq : b.ids[q]? = some id) :
+    a.handle = b.handle ∧ r = q := hi.rows_injective ha hb hr hq
+
+/-- `len()` is the number of stored entities. -/
+theorem C13_len {w : World} (hi : Inv w) : w.len = (w.archs.map (·.ids.length)).sum := hi.len
+
+/-- Released identifiers are available for reuse, none lost or duplicated: the free queue lists
+exactly the inactive slots, once each. -/
+theorem C13_free_exact {w : World} (hi : Inv w) :
+    w.alloc.free.Nodup ∧ ∀ i s, w.alloc.slots[i]? = some s → (s.loc = none ↔ i ∈ w.alloc.free) := by
+  refine ⟨hi.free_nodup, fun i s hs => ⟨fun hl => hi.ainv.listed i s hs hl, fun hm => ?_⟩⟩
+  obtain ⟨t, ht, htl⟩ := hi.ainv.inactive i hm
+  rw [hs] at ht; cases ht; exact htl
+
+/-- Entities with the same component set live in a single table. -/
+theorem C13_one_table_per_set {w : World} (hi : Inv w) : (w.archs.map (·.mask)).Nodup := hi.masks_nodup
+
+/-- Non-vacuity: a history through reuse of a freed slot and a swap-remove of a middle row. -/
+def exampleWorld : Out World :=
+  run (World.init 3 [])
+    [.insert [0, 2] [⟨0, 1⟩, ⟨2, 2⟩], .insert [2, 0] [⟨2, 3⟩, ⟨0, 4⟩], .insert [0, 2] [⟨0, 5⟩, ⟨2, 6⟩],
+     .remove ⟨0, 0⟩, .insert [1] [⟨1, 7⟩], .remove ⟨9, 9⟩, .reserve [0, 1, 2]]
+
+example : (match exampleWorld with | .ok w => invB w && w.len == 3 && w.alloc.free == [] | .ub _ => false) = true := by
+  decide
+
 end Brood
+
 #print axioms Brood.C13_inv_init
+#print axioms Brood.C13_step
+#print axioms Brood.C13_inv_partial
+#print axioms Brood.C13_accepted_is_stored
+#print axioms Brood.C13_stored_is_accepted
+#print axioms Brood.C13_one_row_per_identifier
+#print axioms Brood.C13_len
+#print axioms Brood.C13_free_exact
+#print axioms Brood.C13_one_table_per_set
